@@ -46,11 +46,12 @@ def closure_down(algs):
     return down
 
 
-def run_scenario(store, sc, seed, res, probe=None):
+def run_scenario(store, sc, seed, res, probe=None, want=('C05',)):
     warnings.simplefilter('ignore')
     logging.disable(logging.CRITICAL)
     algs, targets = sc['algs'], sc['targets']
     w = c02_e2e.World(store, algs, targets, random.Random(f'{seed}:c05'))
+    w.want = set(want)      # the World's own monitors (C01 / C03 / C04 clauses) report for these
     down = closure_down(algs)
     hits, plan, answers = [], {}, []
     stats = collections.Counter()
@@ -112,12 +113,15 @@ def run_scenario(store, sc, seed, res, probe=None):
             if probe is not None:
                 probe(w, plan)
             if not w.drain():
-                hits.append(('C05:e2e-no-quiescence',
+                for prop in ('C04', 'C05'):
+                    hits.append((f'{prop}:e2e-no-quiescence',
                              f'the pipeline does not come to rest: pending {w.pending()}, queued {len(w.tasks)}'))
+            else:
+                w.check_idle()
             stats['worker-deaths'] += len(w.worker_deaths)
             stats['executions'] = len(w.executed)
             stats['answers'] = answers
-            return hits, stats
+            return [h for h in hits if h[0][:3] in w.want] + list(w.problems), stats
         w.drain()
         for tag, t, kind in sc['failures']:
             # the unit and everything below it is requested; the unit itself will end as planned
@@ -128,9 +132,10 @@ def run_scenario(store, sc, seed, res, probe=None):
             w.drain()
             plan.pop((tag, t), None)
             w.ctl.FAIL.pop((tag, t), None)
+        w.check_idle()
         stats['worker-deaths'] += len(w.worker_deaths)
         stats['answers'] = answers + [('ok', 'success')] * min(1, len(w.executed))
-        return hits, stats
+        return [h for h in hits if h[0][:3] in w.want] + list(w.problems), stats
     finally:
         w.close()
         logging.disable(logging.NOTSET)
@@ -164,7 +169,7 @@ def corpus():
 
 
 def _small_task(args):
-    name, prefix, seed, max_bumps, max_fails = args
+    name, prefix, seed, max_bumps, max_fails, want = args
     from .c08_store import Store
     global _SMALL_STORE  # pylint: disable=global-statement
     try:
@@ -191,11 +196,11 @@ def _small_task(args):
                 for kind in ('runtime', 'invalid-in'):
                     avail.append(('fail', m.jobid, m.target or '__all__', kind))
 
-    hits, stats = run_scenario(store, c02_e2e._norm(sc), seed, None, probe=probe)  # pylint: disable=protected-access
+    hits, stats = run_scenario(store, c02_e2e._norm(sc), seed, None, probe=probe, want=want)  # pylint: disable=protected-access
     return name, prefix, avail, hits, stats.get('executions', 0)
 
 
-def exhaustive(ctx, res, depth=6, max_bumps=1, max_fails=2):
+def exhaustive(ctx, res, depth=6, max_bumps=1, max_fails=2, want=('C05',)):
     """every sequence of {new source data, tick, let one waiting unit run, make the next run of a waiting unit
     fail / report invalid data} up to `depth` on the small engines of c02_e2e, then run to rest"""
     import multiprocessing
@@ -203,7 +208,7 @@ def exhaustive(ctx, res, depth=6, max_bumps=1, max_fails=2):
     frontier = [(name, ()) for name in c02_e2e.SMALL]
     with multiprocessing.Pool(16) as pool:
         for level in range(depth + 1):
-            jobs = [(name, prefix, ctx['seed'], max_bumps, max_fails) for name, prefix in frontier]
+            jobs = [(name, prefix, ctx['seed'], max_bumps, max_fails, tuple(want)) for name, prefix in frontier]
             nxt = []
             for name, prefix, avail, hits, execs in pool.imap_unordered(_small_task, jobs, chunksize=8):
                 sc = {'algs': c02_e2e.SMALL[name][0], 'targets': c02_e2e.SMALL[name][1],
@@ -218,7 +223,7 @@ def exhaustive(ctx, res, depth=6, max_bumps=1, max_fails=2):
             frontier = nxt
 
 
-def run(ctx, res):
+def run(ctx, res, want=('C05',)):
     from .c08_store import Store
     store = Store()
     store.install_loopback()
@@ -227,9 +232,9 @@ def run(ctx, res):
     scenarios = corpus() + [gen(r, small=not thorough) for _ in range(60 if thorough else 4)]
     observed = []
     for i, sc in enumerate(scenarios):
-        hits, stats = run_scenario(store, c02_e2e._norm(sc), ctx['seed'], res)  # pylint: disable=protected-access
+        hits, stats = run_scenario(store, c02_e2e._norm(sc), ctx['seed'], res, want=want)  # pylint: disable=protected-access
         for sig, what in hits:
-            res.hit(sig, what, {'kind': 'e2e', 'scenario': sc, 'seed': ctx['seed']})
+            res.hit(sig, what, {'kind': 'e2e-fail', 'scenario': sc, 'seed': ctx['seed'], 'want': sorted(want)})
         res.case(('c05-e2e', repr(sc)), nontrivial=bool(sc['failures']),
                  sample={'e2e': sc} if i == 0 else None)
         res.count('e2e:scenario')
@@ -238,7 +243,7 @@ def run(ctx, res):
             res.count('e2e:' + k, v)
     # correspondence: the regenerated clause table of cluster.execute (Model/Worker + Generated/WorkerGen) against
     # what the real worker answered for every ending it was driven into
-    if ctx.get('lean') and observed:
+    if ctx.get('lean') and observed and 'C05' in want:
         pairs = sorted(set(observed))
         outs = common.driver([common.sx(['worker', e]) for e, _r in pairs], 'Sched')
         for (e, real), o in zip(pairs, outs):
@@ -248,16 +253,16 @@ def run(ctx, res):
                 res.diff('Worker.answer vs pl.worker.cluster.execute', {'ending': e}, o.strip(), real)
     if thorough:
         import os
-        exhaustive(ctx, res, depth=int(os.environ.get('VERIF_C05_DEPTH', '5')))
+        exhaustive(ctx, res, depth=int(os.environ.get('VERIF_C05_DEPTH', '5')) - (0 if 'C05' in want else 1), want=want)
     res.assumptions.append('C05 end to end: the real pl.worker.cluster.execute on in-memory sockets; signal handler, '
                            'context overrides, logging hand-over and db.reopen/close of the worker are stubbed')
 
 
-def replay(inp, res):
+def replay(inp, res, want=('C05',)):
     from .c08_store import Store
     store = Store()
     store.install_loopback()
     inp = inp.get('input', inp)
-    hits, _stats = run_scenario(store, c02_e2e._norm(inp['scenario']), inp.get('seed', 0), res)  # pylint: disable=protected-access
+    hits, _stats = run_scenario(store, c02_e2e._norm(inp['scenario']), inp.get('seed', 0), res, want=want)  # pylint: disable=protected-access
     for sig, what in hits:
         res.hit(sig, what, inp)
